@@ -12,12 +12,14 @@ package main
 import (
 	"encoding/json"
 	"fmt"
+	"github.com/karagenc/socket.io-go/parser"
 	"io"
 	"net/http"
 	"os"
 	"sort"
 	"strings"
 	"sync"
+	"sync/atomic"
 	"time"
 
 	mapset "github.com/deckarep/golang-set/v2"
@@ -57,6 +59,41 @@ type world struct {
 	opts       map[string]sockOpts
 	byeStarted chan struct{} // a "slowbye" socket has entered its disconnecting handler
 	stops      []chan struct{}
+	// admission gate: the adapters are wrapped (public AdapterCreator option); when armed, the next AddAll
+	// (the join of the socket's own room during its admission) announces itself and waits to be released
+	inner        map[string]adapter.Adapter // namespace adapter as created by the library (for the index hooks)
+	admit        chan struct{}
+	admitEntered chan struct{}
+}
+
+type gateAdapter struct {
+	adapter.Adapter
+	w *world
+}
+
+func (g *gateAdapter) AddAll(sid adapter.SocketID, rooms []adapter.Room) {
+	g.w.mu.Lock()
+	gate := g.w.admit
+	g.w.admit = nil // one shot
+	g.w.mu.Unlock()
+	if gate != nil {
+		select {
+		case g.w.admitEntered <- struct{}{}:
+		default:
+		}
+		select {
+		case <-gate:
+		case <-time.After(20 * time.Second):
+		}
+	}
+	g.Adapter.AddAll(sid, rooms)
+}
+
+func (w *world) adapterOf(nsp *sio.Namespace) adapter.Adapter {
+	if g, ok := nsp.Adapter().(*gateAdapter); ok {
+		return g.Adapter
+	}
+	return nsp.Adapter()
 }
 
 type sockOpts struct {
@@ -67,8 +104,12 @@ type sockOpts struct {
 
 func newWorld(pingI, pingT time.Duration) (*world, error) {
 	w := &world{socks: map[string]*sockRec{}, nsps: []string{"/", "/b"}, parked: make(chan string, 64), pingI: pingI, pingT: pingT,
-		opts: map[string]sockOpts{}, byeStarted: make(chan struct{}, 8)}
+		opts: map[string]sockOpts{}, byeStarted: make(chan struct{}, 8), admitEntered: make(chan struct{}, 8)}
 	cfg := &sio.ServerConfig{}
+	mkAdapter := adapter.NewInMemoryAdapterCreator()
+	cfg.AdapterCreator = func(st adapter.SocketStore, pc parser.Creator) adapter.Adapter {
+		return &gateAdapter{Adapter: mkAdapter(st, pc), w: w}
+	}
 	cfg.EIO.PingInterval = pingI
 	cfg.EIO.PingTimeout = pingT
 	srv, err := rig.NewServer(cfg, "")
@@ -223,7 +264,7 @@ func (w *world) sweepNsps(nsps []string, since int, oldSID string, allowed map[s
 			for _, s := range nsp.Sockets() {
 				res.leftSockets = append(res.leftSockets, name+":"+string(s.ID()))
 			}
-			snap := adapter.VerifIndexSnapshot(nsp.Adapter())
+			snap := adapter.VerifIndexSnapshot(w.adapterOf(nsp))
 			for sid, rooms := range snap {
 				rs := make([]string, len(rooms))
 				for i, r := range rooms {
@@ -231,7 +272,7 @@ func (w *world) sweepNsps(nsps []string, since int, oldSID string, allowed map[s
 				}
 				res.leftRooms[name+":"+string(sid)] = rs
 			}
-			if err := adapter.VerifCheckIndexInvariant(nsp.Adapter()); err != nil {
+			if err := adapter.VerifCheckIndexInvariant(w.adapterOf(nsp)); err != nil {
 				res.indexErr = err.Error()
 			}
 			for _, room := range []adapter.Room{"room1", "room2"} {
@@ -475,6 +516,24 @@ func runTrial(run *vk.Run, t trialSpec) {
 			w.px.CutAll()
 			peer.C.Abort()
 		}
+	case "in-admission":
+		// the cause arrives while the server is inside the admission of the socket (after the middlewares,
+		// inside onConnect: the join of the socket's own room is held at the adapter)
+		gate := make(chan struct{})
+		w.mu.Lock()
+		w.admit = gate
+		w.mu.Unlock()
+		peer.SendPacket(&refcodec.Packet{Type: refcodec.Connect, Namespace: "/"})
+		select {
+		case <-w.admitEntered:
+		case <-time.After(30 * time.Second):
+			run.Inconclusive(t.id() + ": admission not reached")
+			close(gate)
+			return
+		}
+		inject(w, t.Cause, peer, nil)
+		time.Sleep(30 * time.Millisecond) // let the fault reach the server while the admission is held
+		close(gate)
 	case "join-storm":
 		// Join / Leave keep running on the socket from four goroutines while it is being closed
 		if !connectAndWait(map[string]any{"joiner": true}) {
@@ -523,6 +582,9 @@ func runTrial(run *vk.Run, t trialSpec) {
 		inject(w, t.Cause, peer, ss)
 	}
 	ends := causeEndsSession(t.Cause)
+	if !ends && t.Phase == "in-admission" && t.Cause == "server-disconnect-false" {
+		ends = true // no socket to call Disconnect on yet: inject() closed the transport instead
+	}
 	if !ends && (t.Phase == "before-connect" || t.Phase == "in-middleware") {
 		ends = true // inject() fell back to closing the transport
 	}
@@ -533,7 +595,7 @@ func runTrial(run *vk.Run, t trialSpec) {
 		watchdog = 45 * time.Second
 	}
 	allowed := allowedFor(t.Cause)
-	if t.Phase == "before-connect" || t.Phase == "in-middleware" || t.Phase == "during-upgrade" {
+	if t.Phase == "before-connect" || t.Phase == "in-middleware" || t.Phase == "during-upgrade" || t.Phase == "in-admission" {
 		for k := range allowedFor("client-transport-close", "tcp-cut", "garbage") {
 			allowed[k] = true
 		}
@@ -652,13 +714,13 @@ func runCutScript(run *vk.Run, w *world, dir int, k int64, transport string) (to
 func main() {
 	run := vk.Start("C06", "fault_enumeration")
 	run.Rule("trials = termination cause {client namespace disconnect, client transport close, server Disconnect(false/true), DisconnectSockets, Server.Close, TCP cut, black-hole (ping timeout), protocol garbage, request with the wrong transport} " +
-		"x phase {before CONNECT, inside a parked namespace middleware, connected idle, mid-burst c->s, mid-burst s->c, during the polling->websocket upgrade, two namespaces, Join/Leave storm on the socket from 4 goroutines, second namespace's CONNECT parked in a middleware and released while the first socket runs its (slow) disconnecting handler} x transport; " +
-		"scripted sessions cut at every k-th byte of the TCP stream in each direction; several causes at once; distinct = (cause, phase, transport, number of disconnect handlers observed)")
+		"x phase {before CONNECT, inside a parked namespace middleware, connected idle, mid-burst c->s, mid-burst s->c, during the polling->websocket upgrade, two namespaces, Join/Leave storm on the socket from 4 goroutines, second namespace's CONNECT parked in a middleware and released while the first socket runs its (slow) disconnecting handler, inside the admission of the socket (its first join held at a wrapped adapter)} x transport; " +
+		"scripted sessions cut at every k-th byte of the TCP stream in each direction; several causes at once; sessions being opened by 8 goroutines while Server.Close runs; distinct = (cause, phase, transport, number of disconnect handlers observed)")
 	run.Assume("quiescence = sweep stable and clean, watchdog pingInterval+pingTimeout+15 s (server keeps the sid until user close handlers return)",
 		"the monitor registers its disconnect handlers inside the connection handler, as applications do")
 
 	causes := []string{"client-nsp-disconnect", "client-transport-close", "server-disconnect-false", "server-disconnect-true", "disconnect-sockets-true", "server-close", "tcp-cut", "blackhole", "garbage", "wrong-transport-poll"}
-	phases := []string{"before-connect", "in-middleware", "connected-idle", "mid-burst-c2s", "mid-burst-s2c", "during-upgrade", "two-namespaces", "join-storm", "parked-second-nsp"}
+	phases := []string{"before-connect", "in-middleware", "connected-idle", "mid-burst-c2s", "mid-burst-s2c", "during-upgrade", "two-namespaces", "join-storm", "parked-second-nsp", "in-admission"}
 	var specs []trialSpec
 	for _, c := range causes {
 		for _, p := range phases {
@@ -749,6 +811,12 @@ func main() {
 				runMulti(run, cs)
 			}
 		}
+		for rep := 0; rep < run.Pick(10, 100); rep++ {
+			runHandshakeRace(run, rep)
+			if run.Violations() > 5 {
+				break
+			}
+		}
 	}
 	if bin := os.Getenv("VERIF_RACE_BIN"); bin != "" && run.Thorough() && run.SubMode == "" {
 		if s, err := vk.RunSub(bin, "race", run, 20*time.Minute); err != nil {
@@ -758,6 +826,103 @@ func main() {
 		}
 	}
 	run.Finish()
+}
+
+// runHandshakeRace: "during the handshake" x server shutdown. Eight goroutines keep opening sessions
+// (polling handshakes, half of them followed by a CONNECT) while Server.Close runs; afterwards nothing may
+// be left: no session in the Engine.IO store, no socket, every sid handed out unknown. A session that was
+// registered after Close swept the store stays until its ping timeout (45 s here) and is seen by the sweep.
+func runHandshakeRace(run *vk.Run, rep int) {
+	run.Eval(1)
+	w, err := newWorld(25*time.Second, 20*time.Second)
+	if err != nil {
+		run.Inconclusive(err.Error())
+		return
+	}
+	defer w.close()
+	var opened, refused atomic.Int64
+	var sidMu sync.Mutex
+	var sids []string
+	stop := make(chan struct{})
+	var wg sync.WaitGroup
+	for g := 0; g < 8; g++ {
+		wg.Add(1)
+		go func(g int) {
+			defer wg.Done()
+			for i := 0; ; i++ {
+				select {
+				case <-stop:
+					return
+				default:
+				}
+				resp, err := http.Get(w.srv.URL + "?EIO=4&transport=polling")
+				if err != nil {
+					refused.Add(1)
+					continue
+				}
+				b, _ := io.ReadAll(resp.Body)
+				resp.Body.Close()
+				if resp.StatusCode != 200 {
+					refused.Add(1)
+					if refused.Load() > 200 {
+						return
+					}
+					continue
+				}
+				opened.Add(1)
+				var o struct {
+					SID string `json:"sid"`
+				}
+				if len(b) > 1 && json.Unmarshal(b[1:], &o) == nil && o.SID != "" {
+					sidMu.Lock()
+					sids = append(sids, o.SID)
+					sidMu.Unlock()
+					if (g+i)%2 == 0 {
+						if r2, err := http.Post(w.srv.URL+"?EIO=4&transport=polling&sid="+o.SID, "text/plain", strings.NewReader("40")); err == nil {
+							io.Copy(io.Discard, r2.Body)
+							r2.Body.Close()
+						}
+					}
+				}
+			}
+		}(g)
+	}
+	time.Sleep(time.Duration(3+rep%5) * time.Millisecond)
+	w.srv.IO.Close()
+	vk.WaitUntil(5*time.Second, func() bool { return refused.Load() > 16 })
+	close(stop)
+	wg.Wait()
+	res := w.sweep(0, "", nil, true, 8*time.Second)
+	fields := map[string]any{"cause": "server-close", "phase": "handshake-race", "transport": "polling"}
+	wit := map[string]any{"trial": "handshake-race", "sessions_opened": opened.Load(), "requests_refused": refused.Load(), "seed": run.Seed()}
+	report(run, fields, wit, res, true)
+	// every sid handed out must be unknown now
+	sidMu.Lock()
+	all := append([]string(nil), sids...)
+	sidMu.Unlock()
+	known := 0
+	for i, sid := range all {
+		if i%7 != 0 && i < len(all)-40 {
+			continue // sample the early ones, probe all of the last 40 (the ones opened around the Close)
+		}
+		cl := &http.Client{Timeout: 3 * time.Second}
+		resp, err := cl.Get(w.srv.URL + "?EIO=4&transport=polling&sid=" + sid)
+		if err != nil {
+			known++ // a poll that hangs is a session that is still served
+			continue
+		}
+		io.Copy(io.Discard, resp.Body)
+		resp.Body.Close()
+		if resp.StatusCode == 200 {
+			known++
+		}
+	}
+	if known > 0 {
+		run.Violation(vk.Violation{Sub: "sid-still-known", Fields: fields,
+			What: fmt.Sprintf("%d session ids handed out around Server.Close are still served after Close returned (opened %d, refused %d)", known, opened.Load(), refused.Load()), Witness: wit})
+	}
+	run.Count("handshake_race_sessions_opened", opened.Load())
+	run.Distinct(fmt.Sprintf("handshake-race/opened=%s", map[bool]string{true: "some", false: "none"}[opened.Load() > 0]))
 }
 
 func runMulti(run *vk.Run, causes []string) {
